@@ -42,6 +42,34 @@ def gen_seq(ctx, k, clean):
     held_seen = False
     released_after_hold = False
     nsteps = rng.randrange(10, 70)
+    def checkpoint():
+        sc.add('flush', 'quiesce', f'mark cp{len(cps)}')
+        per = Counter()
+        wired = set(fl.wire)
+        for ad4, lst in subs.items():
+            per[ad4] = sum(1 for (_t, _d, u) in lst if u in wired)
+        cps.append(dict(per))
+    if k % 5 == 4:
+        # a long queue: the budget of one node is used up by unanswered requests, then 130-260 further messages (more than any of the
+        # library's bounded queues holds) are submitted and held; they all go out, in order, once the answers arrive
+        ad = rng.choice(nodes)
+        for j in range(rng.randrange(140, 270)):
+            full = bool(fl.node(ad).held)
+            t = rng.choice(zero_types if full and rng.random() < 0.8 else big if not full else req_types)
+            name = rng.choice(byt[t])
+            nm, ad2, a, data = gen.random_call(rng, ad, names=[name], hot=0.2, long_bias=0.05)
+            if ad2 != ad:
+                continue
+            sc.add(call(nm, *S.tokens(nm, ad, a)))
+            sent = fl.send(ad, t, uid)
+            held_seen = held_seen or not sent
+            subs[ad].append((t, data, uid))
+            steps.append(('send', ad, t, uid, sent))
+            uid += 1
+            if j % 40 == 39:
+                checkpoint()
+        checkpoint()
+        nsteps = rng.randrange(30, 90)
     # unanswered on-wire requests per node (ground truth of the simulated peer): list of dict(type,t)
     for i in range(nsteps):
         r = rng.random()
@@ -116,12 +144,7 @@ def gen_seq(ctx, k, clean):
                             released_after_hold = True
                         sc.add(up(answer_msg(rng, ad3, rt)))
                         steps.append(('unrelated', ad3, rt))
-        sc.add('flush', 'quiesce', f'mark cp{len(cps)}')
-        per = Counter()
-        wired = set(fl.wire)
-        for ad4, lst in subs.items():
-            per[ad4] = sum(1 for (_t, _d, u) in lst if u in wired)
-        cps.append(dict(per))
+        checkpoint()
     sc.add('mark cpend', 'stop')
     meta = {'clean': clean and is_clean, 'nodes': nodes, 'held': held_seen, 'released_after_hold': released_after_hold, 'steps': len(steps)}
     return sc.text(), subs, cps, steps, meta
